@@ -144,6 +144,7 @@ pub fn block_wrapped_source(case: &ProgCase) -> String {
 }
 
 const BATTERY: &str = r#"import { order } from "tsrun:host";
+import { probe as __bprobe, kinds as __bkinds } from "lib:util";
 const __names = [typeof vn0, typeof va0, typeof vo0, typeof vs0, typeof vmain, typeof __log, typeof __show, typeof vr, typeof vK, typeof vB, typeof un0, typeof umain, typeof uK].join(",");
 let vn0: any = 1; const va0: any = [2]; let vo0: any = { z: 3 }; class vK { q(): any { return 4; } } function vmain(): any { return 5; }
 let un0: any = 6; class uK {} function umain(): any { return 7; }
@@ -162,6 +163,7 @@ __b.push("order:" + r1);
 async function af(): Promise<any> { const v: any = await order({ k: 901 }); return v + 1; }
 __b.push("af:" + (await af()));
 { let blockv: any = 1; __b.push("block:" + blockv); }
+__b.push("lib:" + __bprobe() + __bkinds(undefined) + __bkinds([1]));
 __names + "|" + __b.join(";") + "|" + new vK().q() + vmain()
 "#;
 
